@@ -23,7 +23,8 @@ BADNUMS = ['abc', '', '1,5', '0x10', '1_', '--1', '1e', 'one', '1 2', 'R', '.', 
 NAMES = ['A', 'B', 'PEO', 'X1', 'a_b', 'P3HT']
 STRV = ['R', 'S', '', 'RS', 'r', '1']
 FREEK = ['foo', 'mass', 'label', 'k1', 'm', 'name', 'Q', 'W', 'k 1', '', 'kwargs', 'self', ' q', 'q ', 'fragnam', 'ww',
-         '_ref', '_', '_pos', '2k', '007', 'foobar', 'fo', 'MASS', 'weights']
+         '_ref', '_', '_pos', '2k', '007', 'foobar', 'fo', 'MASS', 'weights',
+         'we', 'weigh', 'c', 'ch', 'cha', 'charg', 'chi', 'chira', 'chiral', 'charge']
 FREEV = ['bar', '72', '1.0', '', 'a b', 'R', 'C1', '#', '+1', 'x', 'None', '0', '[', '(', '|2', '.']
 # inside complete strings keys/values must stay clear of the characters the readers scan for
 # free keys for the propagation cases: plain, upper case, digits (also leading), a leading underscore (also the names
@@ -31,7 +32,11 @@ FREEV = ['bar', '72', '1.0', '', 'a b', 'R', 'C1', '#', '+1', 'x', 'None', '0', 
 # of the reserved names, attribute names of the atom readers that no step writes
 SAFEK = ['foo', 'mass', 'label', 'k1', 'm', 'name', 'Q', 'W', 'k_1', 'ww',
          '_ref', '_bead', '_', '__', '_pos', '_atom_str', 'Ref', 'MASS', 'K', 'k2', '2k', '007', 'foobar', 'fo', 'w2', 'q2',
-         'xx', 'weights', 'charges', 'chirality', 'fragnames', 'class', 'isotope']
+         'xx', 'weights', 'charges', 'chirality', 'fragnames', 'class', 'isotope',
+         # beginnings of the verbose names weight / charge / chiral (free keys like any other) and, where the dialect does
+         # not reserve it, the verbose name of the OTHER dialect (rand_annot drops the reserved ones per dialect);
+         # `charge` is not used on atoms: a text charge breaks the hydrogen arithmetic (outside the domain)
+         'we', 'wei', 'weig', 'weigh', 'c', 'ch', 'cha', 'char', 'charg', 'chi', 'chir', 'chira', 'chiral']
 SAFEV = ['bar', '72', '1.0', 'a b', 'R', 'C1', '+1', 'None', '0', 'a.b', '-1']
 EXC = {'TypeError': 'EType', 'KeyError': 'EKey', 'IndexError': 'EIndex', 'ValueError': 'EValue',
        'UnboundLocalError': 'EUnbound', 'LookupError': 'ELookup', 'NameError': 'EName', 'AttributeError': 'EAttr',
@@ -486,7 +491,8 @@ class C14(common.Prop):
             for t in ['', ';', ';;', 'A;;', 'A;1;2;3', 'A;q=1;q=2', 'A;1;q=2', 'A;a=b=c', 'A;1;2;3;a=b=c', 'A;q=abc',
                       'A;q=abc;w=def', 'A;x=1;q=abc;1;2;3', 'A;charge=3', 'A;weight=5;w=2', 'A;fragname=B', 'q=1;A',
                       'A;=5;=6', 'A;q', 'A;foo=1;foo=2', 'A;q=1;1', '1;2;3', 'S', 'chiral=R;x=S', 'w=q', '0.5;R', '1;R;x=S',
-                      'w=1;1', 'x=R;0.5', 'A;kwargs=1', 'a=1;2', '=', '==', 'A;w=2;foo=3;q=1;bar=4']:
+                      'w=1;1', 'x=R;0.5', 'A;kwargs=1', 'a=1;2', '=', '==', 'A;w=2;foo=3;q=1;bar=4',
+                      'A;c=foo', 'A;ch=1;we=2', 'A;charg=x;weigh=y;q=1', 'A;chiral=R;chi=S', 'c=1;cha=2;charge=3', 'we=a;w=2;chira=b;x=S']:
                 out.append({'kind': 'parse', 'd': d, 'text': t})
         # the known finding's witness and a clean coarse case
         out.append({'kind': 'prop', 'aa': False,
@@ -519,6 +525,12 @@ class C14(common.Prop):
                         'assign': [['fragname', 'P'], ['w', '0.5']], 'free': [['_bead', 'p1'], ['_', 'u'], ['007', 'b'], ['fo', '1'], ['foo', '2']],
                         'ents': [['P', 'P'], ['K', 'w', '0.5'], ['K', '_bead', 'p1'], ['K', '_', 'u'], ['K', '007', 'b'], ['K', 'fo', '1'],
                                  ['K', 'foo', '2']]}}, '[#Q][$]']}]})
+        out.append({'kind': 'prop', 'aa': True,
+                    'units': [{'annot': {'assign': [['fragname', 'A'], ['q', '1']], 'free': [['c', 'u'], ['weigh', 'v'], ['chiral', 'R']],
+                                         'ents': [['P', 'A'], ['K', 'c', 'u'], ['K', 'q', '1'], ['K', 'weigh', 'v'], ['K', 'chiral', 'R']]}, 'mult': 2}],
+                    'frags': [{'name': 'A', 'tokens': ['[$]C', {'atom': 'N', 'annot': {
+                        'assign': [['w', '0.25']], 'free': [['ch', 'a'], ['chira', 'b'], ['we', 'c'], ['charg', 'd']],
+                        'ents': [['K', 'ch', 'a'], ['K', 'w', '0.25'], ['K', 'chira', 'b'], ['K', 'we', 'c'], ['K', 'charg', 'd']]}}, '[$]']}]})
         # branch multipliers: annotated anchor / annotated node inside the unit / annotated multiplied node
         def an(name, assign=(), free=(), ents=None):
             assign = [['fragname', name]] + [list(x) for x in assign]
